@@ -191,6 +191,12 @@ class Matrix(abc.ABC):
             self._hash = self._compute_hash()
         return self._hash
 
+    def __getstate__(self) -> dict[str, Any]:
+        # Do not persist memoised hash as hash values are not stable across processes
+        state = self.__dict__.copy()
+        state["_hash"] = None
+        return state
+
     @abc.abstractmethod
     def _check_equality(self, other: Matrix) -> bool:
         """Check for equality with another instance of the same class."""
